@@ -347,7 +347,28 @@ def rule_provider(ctx) -> None:
             detail = f"{order}"[:260]
     chk.decide(ok, "C08.provider", pf.qual, "extra parameters become the signing keyword arguments; the key is loaded with the resolved secret; the hash is applied after the arguments are stored", detail, "", A.loc(SP, pf.node))
     hs = ctx.own(SP, "PlainFileSP", "hash_alg", "setter")
-    chk.decide("self.sign_kwargs['algorithm'] = hash_alg" in norm(hs.node) and "self._hash_alg = hash_alg" in norm(hs.node), "C08.provider", hs.qual + " setter", "a configured hash becomes the `algorithm` signing argument", "", "", A.loc(SP, hs.node))
+    # the setter evaluated on its three kinds of input: nothing, an algorithm object, a label given as text (provider strings hand
+    # every parameter over as text) - what is stored and what becomes the `algorithm` signing argument must be an algorithm, never text
+    from ..engines import ordereval as _oe
+    E384 = _oe.Obj(_enum="SHA384", label="sha384")
+    probs = []
+    for val in (None, E384, "sha384", "SHA256"):
+        me = _oe.Obj(sign_kwargs={}, _hash_alg="<unset>")
+
+        def cv_hs(c: ast.Call, ev):
+            if norm(c.func) == "EnumHashAlgorithm.from_label" and len(c.args) == 1:
+                return ("ENUM", ev.ev(c.args[0]).lower())
+            return _oe.NOT_MODELLED
+        try:
+            _oe.Evaluator({"self": me, "hash_alg": val}, None, opaque_return=False, call_value=cv_hs).run(A.body_of(hs.node))
+        except _oe.Unsupported as ex:
+            raise AnalysisError(f"C08.provider: PlainFileSP.hash_alg setter left the fragment: {ex}")
+        stored, arg = me.__dict__.get("_hash_alg"), me.__dict__["sign_kwargs"].get("algorithm", "<none>")
+        want_s = None if val is None else val if val is E384 else ("ENUM", val.lower())
+        want_a = "<none>" if val is None else want_s
+        if stored != want_s or arg != want_a or isinstance(stored, str) or isinstance(arg, str) and arg != "<none>":
+            probs.append(f"hash_alg={val!r}: stored {stored!r}, signing argument {arg!r}")
+    chk.decide(not probs, "C08.provider", hs.qual + " setter", "a configured hash becomes the `algorithm` signing argument; a label given as text is converted to the algorithm first", "; ".join(probs[:2]), "", A.loc(SP, hs.node))
     sg = ctx.own(SP, "PlainFileSP", "sign")
     chk.decide(norm(A.returns_in(sg.node)[-1].value) == "self.private_key.sign(data, **self.sign_kwargs)", "C08.provider", sg.qual, "signs with the loaded key and the stored parameters", "", "", A.loc(SP, sg.node))
     gs = ctx.own(SP, "SignatureProvider", "get_signature")
